@@ -314,6 +314,16 @@ def _fz(v):
 
 
 # --------------------------------------------------------------------------
+def _inplace_projection(e):
+    """An in-place projection handed to a solver: x <- P(x), P an
+    uninterpreted nonlinear map."""
+    P = vs.OSym('P', False, e.I.reg)
+
+    def proj(v):
+        v.val = P.apply(v.val)
+    return Builtin('projection', proj)
+
+
 def _resume(rep, model):
     """R2: n then m iterations == n + m iterations."""
     def landweber(e, x, n):
@@ -344,14 +354,27 @@ def _resume(rep, model):
         return [e.fun('f', e.X), x], {'line_search': Rat.var('step'),
                                       'maxiter': n}
 
+    def with_proj(mk):
+        def mk2(e, x, n):
+            a, k = mk(e, x, n)
+            k = dict(k)
+            k['projection'] = _inplace_projection(e)
+            return a, k
+        mk2.proj = True
+        return mk2
+
     cases = [(ITER, 'landweber', landweber), (ITER, 'kaczmarz', kaczmarz),
              (PGRAD, 'proximal_gradient', prox_grad),
              (STAT, 'osmlem', osmlem), (STAT, 'mlem', mlem),
-             (GRAD, 'steepest_descent', steepest)]
+             (GRAD, 'steepest_descent', steepest),
+             (ITER, 'landweber', with_proj(landweber)),
+             (ITER, 'kaczmarz', with_proj(kaczmarz)),
+             (GRAD, 'steepest_descent', with_proj(steepest))]
     for rel, name, mk in cases:
         fn = model.ctx.func(rel, name)
         for n, m in ((1, 1), (2, 1), (1, 2)):
-            tag = '%s[%d+%d]' % (name, n, m)
+            tag = '%s%s[%d+%d]' % (name, '[projection]' if getattr(
+                mk, 'proj', False) else '', n, m)
             try:
                 # n + m at once
                 def b_all(e):
